@@ -46,3 +46,76 @@ func init() {
 		Outside: []string{"labels longer than the stated byte bounds", "arity above 4"},
 	})
 }
+
+const logstreamPkg = "github.com/google/mtail/internal/tailer/logstream"
+
+func init() {
+	register(&CheckDef{
+		ID:    "C15",
+		Level: "model_checking",
+		Jobs: func(tier string) []JobDef {
+			mk := func(maxn, maxsize, zr int) JobDef {
+				return JobDef{Name: fmt.Sprintf("HarnessC15-n%d-s%d-z%d", maxn, maxsize, zr), Pkg: logstreamPkg, Dir: "internal/tailer/logstream",
+					Harness: []string{"logstream/c15.go"}, Entry: "HarnessC15", Params: p("maxn", maxn, "maxsize", maxsize, "zeroreads", zr),
+					Bound: fmt.Sprintf("stream of 0..%d arbitrary bytes, read buffer size 1..%d, every chunking (each read returns any 1..min(len(p),rest) bytes; up to %d zero-length reads)", maxn, maxsize, zr)}
+			}
+			if tier == "thorough" {
+				return []JobDef{mk(6, 4, 1), mk(4, 6, 2)}
+			}
+			return []JobDef{mk(4, 3, 1)}
+		},
+		Assumptions: append([]string{
+			"bytes.IndexByte is an engine model (first index whose byte equals the needle, forking per byte); expvar is a counter table; time.AfterFunc/Timer.Stop are no-ops",
+			"the io.Reader is a harness stub returning any chunk allowed by the io.Reader contract; read errors other than io.EOF are outside the claim",
+		}, baseAssumptions...),
+		Outside: []string{"streams longer than the bound", "read errors", "the stale-timer cancellation"},
+	})
+}
+
+func init() {
+	register(&CheckDef{
+		ID:    "C09",
+		Level: "model_checking",
+		Jobs: func(tier string) []JobDef {
+			mk := func(arity, maxlen, nops, typ int) JobDef {
+				return JobDef{Name: fmt.Sprintf("HarnessC09Seq-a%d-l%d-n%d-t%d", arity, maxlen, nops, typ), Pkg: metricsPkg, Dir: "internal/metrics",
+					Harness: []string{"metrics/c08.go", "metrics/c09.go"}, Entry: "HarnessC09Seq", Params: p("arity", arity, "maxlen", maxlen, "nops", nops, "type", typ),
+					Bound: fmt.Sprintf("every sequence of %d operations from {get-or-create, delete, expire, wrong-length calls, value update, find} on an empty metric of arity %d, value type %d; every label 0..%d arbitrary bytes; expiry any int64", nops, arity, typ, maxlen)}
+			}
+			if tier == "thorough" {
+				return []JobDef{mk(1, 1, 4, 0), mk(2, 1, 3, 0), mk(1, 2, 3, 0), mk(0, 1, 4, 0), mk(1, 1, 3, 1), mk(1, 1, 3, 2), mk(1, 1, 3, 3), mk(2, 2, 2, 0)}
+			}
+			return []JobDef{mk(1, 1, 3, 0), mk(2, 1, 2, 0), mk(0, 1, 3, 0), mk(1, 1, 2, 3), mk(1, 1, 2, 2)}
+		},
+		Assumptions: append([]string{
+			"the oracle is an insertion-ordered association list written in the harness and executed by the same engine on the same symbols",
+			"EmitLabelSets runs in an interpreted goroutine under the engine's deterministic scheduler (one schedule); the enumeration result does not depend on the interleaving because producer and consumer rendezvous on one unbuffered channel",
+			"pkg/errors.Errorf is modelled as an opaque error (its message, which formats the metric, is not evaluated)",
+		}, baseAssumptions...),
+		Outside: []string{"operation sequences longer than the bound", "concurrent use (C11)", "JSON marshalling of the metric"},
+	})
+}
+
+func init() {
+	register(&CheckDef{
+		ID:    "C10",
+		Level: "model_checking",
+		Jobs: func(tier string) []JobDef {
+			mk := func(maxn int) JobDef {
+				return JobDef{Name: fmt.Sprintf("HarnessC10-n%d", maxn), Pkg: metricsPkg, Dir: "internal/metrics",
+					Harness: []string{"metrics/c10.go"}, Entry: "HarnessC10", Params: p("maxn", maxn),
+					Substs: []Subst{{File: "internal/metrics/store.go", Old: "time.Now()", New: "verifNow()"}},
+					Bound:  fmt.Sprintf("one metric with 0..%d data, each with an arbitrary timestamp in [1970, 2262] and an arbitrary int64 expiry (any sign), limit 0..%d, clock anywhere in [2001-09-09, 2200-01-01); one Gc pass", maxn, maxn+1)}
+			}
+			if tier == "thorough" {
+				return []JobDef{mk(3), mk(4), mk(5)}
+			}
+			return []JobDef{mk(3)}
+		},
+		Assumptions: append([]string{
+			"time.Time is an engine model: an exact count of nanoseconds; time.Unix(t/1e9, t%1e9) is recognised structurally as the instant t (an identity of Go's truncated division), Time.Sub is the 128-bit difference saturated to int64, Time.Before compares instants; the wall clock is a symbolic instant (vClockSet) - natively replayed by substituting time.Now() in store.go with the harness clock",
+			"timestamps are >= 0 (after 1970) so that Time.Sub cannot saturate; data are addressed by distinct single-letter labels",
+		}, baseAssumptions...),
+		Outside: []string{"more data per metric than the bound", "timestamps before 1970 (Sub saturation)", "several metrics each over its limit (the per-metric pass is independent)"},
+	})
+}
